@@ -670,9 +670,13 @@ def _teardown(world):
                 world.cls_ctx.pop().__exit__(None, None, None)
             except Exception:  # noqa: BLE001
                 pass
-        bc = getattr(k, "_buffered_collections", None)
-        if isinstance(bc, dict):
-            bc.clear()
+        # registries of live collections kept at class level (whatever they are called): forget this world's
+        # objects so that they cannot be flushed during a later execution in the same process
+        for base in k.__mro__:
+            for name, val in list(vars(base).items()):
+                if isinstance(val, dict) and val and not name.startswith("__"):
+                    for key in [kk for kk, vv in val.items() if env.is_synced(vv)]:
+                        val.pop(key, None)
         dc = env.default_capacity(world.cfg.clsname)
         if dc is not None and k.get_buffer_capacity() != dc:
             try:
